@@ -86,6 +86,7 @@ pub fn run(out: &mut Out, seed: u64, tier: &str) {
     let per_kind = if tier == "thorough" { 4000 } else { 400 };
     let mut n_fd = 0usize;
     let mut n_wide = 0usize;
+    let mut n_graze = 0usize;
     let mut worst: f64 = 0.0;
     for (kind, na) in KINDS.iter() {
         for case in 0..per_kind {
@@ -96,7 +97,11 @@ pub fn run(out: &mut Out, seed: u64, tier: &str) {
             // bends, torsions and inversions are also probed with the angle 0-1-2 opened to 172-179 degrees (near-linear
             // guards and the 1/sin factors live there)
             let wide = *na >= 3 && case % 8 == 7;
-            if wide {
+            // bends are also probed a hair away from straight (1e-6.5 .. 1e-3 rad: what five written decimals leave of a straight line);
+            // their energies are smooth through 180 degrees, so the gradient there is an ordinary number, not a limit
+            let grazing = *na == 3 && case % 8 == 5;
+            let mut graze_delta = 0.0f64;
+            if wide || grazing {
                 let sub = |a: &Point, b: &Point| [a.x - b.x, a.y - b.y, a.z - b.z];
                 let dot = |a: [f64; 3], b: [f64; 3]| a[0] * b[0] + a[1] * b[1] + a[2] * b[2];
                 let u0 = sub(&x[2], &x[1]); let lu = dot(u0, u0).sqrt(); let u = [u0[0] / lu, u0[1] / lu, u0[2] / lu];
@@ -104,7 +109,7 @@ pub fn run(out: &mut Out, seed: u64, tier: &str) {
                 let vp = [v[0] - dot(v, u) * u[0], v[1] - dot(v, u) * u[1], v[2] - dot(v, u) * u[2]];
                 let lw = dot(vp, vp).sqrt();
                 if lw > 1e-3 {
-                    let d = (180.0 - rng.range(172.0, 179.0)).to_radians();
+                    let d = if grazing { graze_delta = 10f64.powf(rng.range(-6.5, -3.0)); graze_delta } else { (180.0 - rng.range(172.0, 179.0)).to_radians() };
                     x[0].x = x[1].x + r * (-d.cos() * u[0] + d.sin() * vp[0] / lw);
                     x[0].y = x[1].y + r * (-d.cos() * u[1] + d.sin() * vp[1] / lw);
                     x[0].z = x[1].z + r * (-d.cos() * u[2] + d.sin() * vp[2] / lw);
@@ -133,9 +138,11 @@ pub fn run(out: &mut Out, seed: u64, tier: &str) {
 
             // oracle 1: finite differences (only where the geometry is well conditioned and near the origin)
             let near_origin = x.iter().all(|p| p.x.abs() < 10.0);
-            let conditioned = if wide { crate::s_ff::well_conditioned_with(&[TermDesc { kind, idxs: (0..*na).collect(), params: params.clone() }], &x, 0.03) && x.iter().enumerate().all(|(i, p)| (0..i).all(|j| { let q = &x[j]; ((p.x - q.x).powi(2) + (p.y - q.y).powi(2) + (p.z - q.z).powi(2)).sqrt() > 0.5 })) }
+            let far_apart = x.iter().enumerate().all(|(i, p)| (0..i).all(|j| { let q = &x[j]; ((p.x - q.x).powi(2) + (p.y - q.y).powi(2) + (p.z - q.z).powi(2)).sqrt() > 0.5 }));
+            let conditioned = if grazing { far_apart && crate::s_ff::well_conditioned_grazing(&[TermDesc { kind, idxs: (0..*na).collect(), params: params.clone() }], &x) } else if wide { crate::s_ff::well_conditioned_with(&[TermDesc { kind, idxs: (0..*na).collect(), params: params.clone() }], &x, 0.03) && x.iter().enumerate().all(|(i, p)| (0..i).all(|j| { let q = &x[j]; ((p.x - q.x).powi(2) + (p.y - q.y).powi(2) + (p.z - q.z).powi(2)).sqrt() > 0.5 })) }
                               else { well_conditioned(kind, &params, &x) };
             if wide && conditioned { n_wide += 1; }
+            if grazing && conditioned { n_graze += 1; }
             if near_origin && conditioned && g.iter().all(|v| v.is_finite()) {
                 let fd = fd_grad(term.as_ref(), &x, 2e-4);
                 let gmax = g.iter().fold(0.0f64, |m, v| m.max(v.abs())).max(1e-3);
@@ -143,7 +150,8 @@ pub fn run(out: &mut Out, seed: u64, tier: &str) {
                 for (s, (a, b)) in g.iter().zip(fd.iter()).enumerate() {
                     let err = (a - b).abs();
                     // 1e-6 of the largest component, plus the round-off floor of the difference quotient
-                    let tol = 1e-6 * gmax + 1e-13 * emag / 2e-4;
+                    // (a hair from straight, 1 - cos^2 = delta^2 carries a relative rounding error of eps/delta^2, and so does the gradient)
+                    let tol = 1e-6 * gmax + 1e-13 * emag / 2e-4 + if grazing && graze_delta > 0.0 { gmax * 1e-15 / (graze_delta * graze_delta) } else { 0.0 };
                     worst = worst.max(err / gmax);
                     if !(err <= tol) {
                         out.oracle_fail(
@@ -193,5 +201,6 @@ pub fn run(out: &mut Out, seed: u64, tier: &str) {
     }
     out.stat("fd_checked", n_fd);
     out.stat("wide_angle_cases_conditioned", n_wide);
+    out.stat("bends_a_hair_from_straight_fd_checked", n_graze);
     out.stat("fd_worst_relative_error", format!("{:e}", worst));
 }
